@@ -278,7 +278,7 @@ _add(
         "NotImplementedError iff a visited MUSS/prefix node is UNKNOWN; validate_segment_level on a random sub-tree. distinct non-trivial = "
         "distinct (tree, assignment, flag) with depth >= 3 or pruning"
     ),
-    deciding={"any": {"trees": 100, "nodes_reported": 1500, "trees_with_pruning": 30, "runs_expecting_not_implemented": 3, "segment_level_calls": 50, "runs_with_concurrently_parked_awaitables": 50, "sequence_runs": 50, "runs_with_shipped_evaluators": 30, "trees_with_line_indexes": 50, "calls_with_explicit_parent_status": 50, "explicit_parent:IS_FORBIDDEN": 5}},
+    deciding={"any": {"trees": 100, "nodes_reported": 1500, "trees_with_pruning": 30, "runs_expecting_not_implemented": 3, "segment_level_calls": 50, "runs_with_concurrently_parked_awaitables": 50, "sequence_runs": 50, "runs_with_shipped_evaluators": 30, "trees_with_line_indexes": 50, "calls_with_explicit_parent_status": 50, "explicit_parent:IS_FORBIDDEN": 5, "trees_written_with_packages": 30}},
     headline=["trees", "nodes_reported", "nodes_pruned", "runs_expecting_not_implemented", "segment_level_calls"],
 )
 
